@@ -1,10 +1,24 @@
-HOOK_COMMITS = ["7de202d", "7f6c320", "bd5f58f"]
-FIX_COMMITS = ["7a73b90", "307c7cf", "73e9739", "b6ad768", "06a0422", "37593fd", "b26bda1", "ef4414e", "83534a3", "9d32858", "8df6799", "bfa46be", "d5169bc", "e984a30", "8e975df", "0e9fd95", "93bc5a2", "0df18c2", "dae6c16", "f32a1a0", "6b14b06", "641f662", "5fd891f", "12b678f", "5af4846", "35b9151"]
+HOOK_COMMITS = ["7de202d", "7f6c320", "bd5f58f", "f5c511f"]
+FIX_COMMITS = ["7a73b90", "307c7cf", "73e9739", "b6ad768", "06a0422", "37593fd", "b26bda1", "ef4414e", "83534a3", "9d32858", "8df6799", "bfa46be", "d5169bc", "e984a30", "8e975df", "0e9fd95", "93bc5a2", "0df18c2", "dae6c16", "f32a1a0", "6b14b06", "641f662", "5fd891f", "12b678f", "5af4846", "35b9151", "1a0d573"]
 
 NOTE_COMMON = ("Trusted: Lean kernel (axioms propext/Classical.choice/Quot.sound only), the hand-written model's "
                "fidelity outside the sampled correspondence, rustc/std and third-party crates as black boxes, the guarded hooks.")
 
 CLAIMS = {
+    "C08": {
+        "level": "Kernel-checked for every buffer, cursor, register bank, register name and *every* MotionKind the motion engine can hand to a verb (so for every "
+                 "motion and text object, present or future): delete/change remove exactly the span s..e (text = before-span ++ after-span) and store exactly the "
+                 "removed text; yank leaves the text alone and stores the covered text; linewise delete stores a line register; a lower-case/unnamed register is "
+                 "overwritten and no other register changes, an upper-case one appends, an invalid name changes nothing; put inserts exactly the register text at "
+                 "one grapheme boundary; typing inserts exactly the typed character; r replaces exactly the grapheme under the cursor; g~ gu gU ~ keep every "
+                 "grapheme's length, change only single ASCII letters and only inside the span; g? keeps the text outside the span, maps char by char, is an "
+                 "involution and fixes non-letters. Every run traces the real editor at LineBuf::exec_cmd (MotionKind, verb, register, text, real segmentation, "
+                 "cursor/clamp, all registers before and after) and checks each pair directly against the property and against the Lean verb model.",
+        "note": NOTE_COMMON + " The motion engine (which span a motion denotes) is an input here, not verified; puts from line/block registers and visual-block "
+                "register contents are compared on the implementation only through the direct oracle (text side), not modelled; Indent/Dedent/JoinLines/Equalize and ex "
+                "verbs are outside C08's operator list (ex is C16). Pre-states with a stale offset cache are skipped and counted (C09 owns freshness).",
+        "technique": "Lean 4 proof (frame theorems quantified over MotionKind, registers and buffers) + per-verb correspondence and direct property oracle through the exec_cmd trace hook",
+    },
     "C16": {
         "level": "Kernel-checked facts about the line-oriented reference and vicut's address evaluation, for every text, range and matcher: a resolved line/range lies "
                  "inside the buffer and is ordered; a backwards range addresses the same lines; $ is the last line and % every line, also on the real buffer "
